@@ -130,7 +130,11 @@ func (c11) Gen(seed uint64, tier string) *Scenario {
 				extra = fmt.Sprintf("INSERT INTO %s VALUES (1, 2, 3);", tableName(r.Intn(ntab)))
 			}
 		} else {
-			switch r.Intn(9) {
+			switch r.Intn(11) {
+			case 9:
+				extra = fmt.Sprintf("SELECT COUNT(*) FROM %s;\nSHOW TABLES;\nSHOW FIELDS FROM %s;", tableName(0), tableName(0))
+			case 10:
+				extra = fmt.Sprintf("PREPARE ps FROM 'SELECT id FROM %s WHERE id = ?';\nEXECUTE ps USING 1;\nEXECUTE 'SELECT COUNT(*) FROM %s';", tableName(0), tableName(0))
 			case 7:
 				// a load that fails in the middle of the file
 				extra = fmt.Sprintf("SELECT COUNT(*) FROM %s;\nSELECT * FROM bad;", tableName(0))
